@@ -247,6 +247,18 @@ async def setup(hidden_expunge=False, msgs=None, backend='dict'):
         uids.append(int(mu.group(1)) if mu else None)
     await c.cmd(b'SELECT Box')
     view = [Rec(i + 1, uids[i], m, raws[i], True) for i, m in enumerate(MSGS)]
+    if backend != 'dict':
+        # a maildir keeps the internal date as a point in time, not as the date-time text of the APPEND (the zone is not
+        # stored): the session's view of INTERNALDATE and of \Recent is what FETCH serves, and SEARCH is held to that
+        r = await c.cmd(b'FETCH 1:* (UID INTERNALDATE FLAGS)')
+        served = {}
+        for u in r['untagged']:
+            mu = re.search(rb'UID (\d+)', u)
+            md = re.search(rb'INTERNALDATE "([^"]+)"', u)
+            mf = re.search(rb'FLAGS \(([^)]*)\)', u)
+            if mu and md and mf:
+                served[int(mu.group(1))] = (md.group(1).decode().strip(), b'\\Recent' in mf.group(1).split())
+        view = [Rec(i + 1, uids[i], dict(m, idate=served[uids[i]][0]), raws[i], served[uids[i]][1]) for i, m in enumerate(MSGS)]
     if hidden_expunge:
         # another session expunges message 3 (already \Deleted); the searching session only issues non-UID commands,
         # so the expunge stays hidden and message 3 stays in its view
